@@ -101,6 +101,7 @@ def finish(pid, tier, results, wall, verbose=True):
                   'status': 'bounded', 'reason': ''}
             fr = run_falsifier(pid, ob, r, seed, budget=int(os.environ.get('PYVC_BOUNDED_BUDGET', '300' if tier == 'quick' else '3000')))
             rec = {'function': r['key'], 'clauses': r['bounded_clauses'], 'cases': (fr or {}).get('admissible', 0),
+                   'generated': (fr or {}).get('tried', 0),
                    'distinct_cases': (fr or {}).get('distinct', 0), 'samples': (fr or {}).get('samples', []),
                    'bound': (fr or {}).get('bound', 'seeded generator, see harness/gens.py'), 'result': 'held'}
             if fr and fr.get('reproduced'):
@@ -198,7 +199,7 @@ def finish(pid, tier, results, wall, verbose=True):
                 continue
             ob = {'name': r['key'] + '/runtime-validation', 'text': 'run-time contract check of the real function', 'backend': 'falsifier'}
             fr = run_falsifier(pid, ob, r, seed, budget=budget)
-            rec = {'function': r['key'], 'cases': (fr or {}).get('admissible', 0), 'result': 'held'}
+            rec = {'function': r['key'], 'cases': (fr or {}).get('admissible', 0), 'generated': (fr or {}).get('tried', 0), 'result': 'held'}
             if fr and fr.get('reproduced'):
                 rec['result'] = 'violated'
                 os.makedirs(os.path.join(VERIF, 'replays', pid), exist_ok=True)
